@@ -22,7 +22,7 @@ import (
 // starting at a different one; results are compared with the same programs run sequentially afterwards.
 func TestC18Grid(t *testing.T) {
 	defer h.WriteStats("C18")
-	kinds := []string{"sqrt", "quo", "mul", "sqr", "fma", "add", "sub", "text", "format", "float64", "int", "gob", "marshaltext", "cmp", "set"}
+	kinds := []string{"sqrt", "quo", "mul", "sqr", "fma", "add", "sub", "text", "format", "wideformat", "float64", "int", "gob", "marshaltext", "cmp", "set"}
 	c := C18Case{Procs: 16, Pool: []h.Spec{
 		{F: "f", D: "2", E: 1, P: 40, M: 0},
 		{F: "f", D: "314159265358979323846264338327950288419716939937510582097494459", E: 3, P: 70, M: 2},
